@@ -13,7 +13,7 @@ import (
 type Params struct {
 	Clients []string
 	Steps   int
-	Prefill int // nominal exchanges of Clients[0] executed before the explored part
+	Prefill int  // nominal exchanges of Clients[0] executed before the explored part
 	Prune   bool // canonical-state pruning (state = rebased store + in-flight + harness cursors + steps left)
 	// FreeClientRx makes the client and receive-time choices free of
 	// deviation cost (capacity scenarios); RxKinds restricts the receive-time
